@@ -351,8 +351,87 @@ func validRIDRef(rid string) bool {
 	return true
 }
 
+// staleLoadErrors: a get request whose resource failed to load leaves no
+// subscription behind, so a later get or subscribe of the same resource on that
+// connection is evaluated afresh: if it fails with the same load error, a new
+// get request for the resource must have been made in between.
+func (m *MonC08) staleLoadErrors(w *World) []Violation {
+	var vs []Violation
+	log := w.Log()
+	loadErr := map[string]bool{"system.notFound": true, "system.timeout": true, "system.internalError": true, "custom.err": true}
+	for _, c := range w.Clients {
+		if c.CID == "" {
+			continue
+		}
+		for i, id1 := range c.Ref.ReqOrder {
+			r1 := c.Ref.Reqs[id1]
+			if r1.Action != "get" || r1.Dup || r1.Resp == 0 || !r1.IsError || r1.Error == nil || !loadErr[r1.Error.Code] || !validRIDRef(r1.RID) {
+				continue
+			}
+			name, q := w.expandRID(c, r1.RID)
+			// the failure came from the resource's get request
+			failed := false
+			for _, e := range log[r1.SentT:r1.RespT] {
+				if e.Kind == "mq_complete" && e.Subject == "get."+name && (e.Err != "" || strings.Contains(string(e.Payload), `"error"`)) {
+					failed = true
+				}
+			}
+			if !failed || c.Ref.Direct[r1.RID] != 0 {
+				continue
+			}
+			// held at time t (directly or below a parent, also as an error
+			// placeholder): handed over and not dropped since
+			heldAt := func(t int) bool {
+				last, held := -1, false
+				for _, h := range c.Ref.Handovers {
+					if h.RID == r1.RID && h.T < t && h.T > last {
+						last, held = h.T, true
+					}
+				}
+				for _, d := range c.Ref.DropLog {
+					if d.RID == r1.RID && d.T < t && d.T >= last {
+						last, held = d.T, false
+					}
+				}
+				return held
+			}
+			for _, id2 := range c.Ref.ReqOrder[i+1:] {
+				r2 := c.Ref.Reqs[id2]
+				if r2.RID != r1.RID || (r2.Action != "get" && r2.Action != "subscribe") || r2.Dup || r2.Resp == 0 || r2.SentT < r1.RespT {
+					continue
+				}
+				if heldAt(r1.RespT) || heldAt(r2.SentT) || reachableFromOutstanding(w, c, r1.RID, r1.RespT) || reachableFromOutstanding(w, c, r1.RID, r2.SentT) {
+					// the connection keeps a subscription for it below another resource
+					// (one it holds, or one that is still loading)
+					m.class("request_after_failed_get_of_held_resource")
+					break
+				}
+				m.class("request_after_failed_get")
+				if !r2.IsError || r2.Error == nil || r2.Error.Code != r1.Error.Code {
+					break
+				}
+				answered := false
+				for _, e := range log[r1.RespT:r2.RespT] {
+					// a fresh evaluation requests the resource anew (whatever then fails)
+					if e.Kind == "mq_req" && e.Subject == "get."+name {
+						answered = true
+					}
+				}
+				_ = q
+				if !answered {
+					vs = append(vs, Violation{Property: "C08", Class: "answered_from_stale_load_error", Conn: c.Idx, RID: r2.RID, T: r2.RespT, Step: w.stepOfT(r2.RespT),
+						Message: fmt.Sprintf("c%d: get #%d of %s failed to load (%s) and left no subscription; request #%d (%s) failed with the same error although no get request for %s was made in between", c.Idx, id1, r1.RID, r1.Error.Code, id2, r2.Method, name)})
+				}
+				break
+			}
+		}
+	}
+	return vs
+}
+
 func (m *MonC08) OnEnd(w *World) []Violation {
 	var vs []Violation
+	vs = append(vs, m.staleLoadErrors(w)...)
 	for _, v := range clientViolations(w, "C08") {
 		if m.ambig[fmt.Sprintf("%d|%s", v.Conn, v.RID)] {
 			m.class("client_violation_after_ambiguity_skipped")
